@@ -37,6 +37,45 @@ Definition key (r : role) (s : sys) : N :=
 Lemma ems_of_app r a b : ems_of r (a ++ b) = ems_of r a ++ ems_of r b.
 Proof. apply filter_app. Qed.
 
+(* finalisation: at most one emission, of the device, under the next device counter *)
+Lemma dev_finalize_spec d d' em :
+  dev_finalize d = (d', em) ->
+  d_kr d' = d_kr d /\ d_kd d' = d_kd d /\ d_recv d' = d_recv d /\
+  ((em = [] /\ d_send d' = d_send d) \/
+   (exists p, em = [{| em_role := Device; em_key := d_kd d; em_iv := iv Device (incr (d_send d)); em_plain := p |}]
+              /\ d_send d' = incr (d_send d))).
+Proof.
+  unfold dev_finalize. destruct (d_state d) as [|p|m]; intro H.
+  - inversion H; subst. repeat split; try reflexivity. left; split; reflexivity.
+  - destruct (pr_prepared p).
+    + unfold next_iv in H. inversion H; subst; clear H. cbn. repeat split; try reflexivity.
+      right. eexists. split; reflexivity.
+    + inversion H; subst. repeat split; try reflexivity. left; split; reflexivity.
+  - inversion H; subst. repeat split; try reflexivity. left; split; reflexivity.
+Qed.
+
+Definition dev_only_emission (s : sys) (d' : dev) (em : list emission) : Prop :=
+  d_kr d' = d_kr (s_dev s) /\ d_kd d' = d_kd (s_dev s) /\
+  ((em = [] /\ d_send d' = d_send (s_dev s)) \/
+   (exists p, em = [{| em_role := Device; em_key := d_kd (s_dev s); em_iv := iv Device (incr (d_send (s_dev s))); em_plain := p |}]
+              /\ d_send d' = incr (d_send (s_dev s)))).
+
+Lemma dev_only_step s d' em r :
+  dev_only_emission s d' em ->
+  let s' := {| s_dev := d'; s_rdr := s_rdr s |} in
+  key r s' = key r s /\
+    ((ems_of r em = [] /\ ctr r s' = ctr r s) \/
+     (exists p, ems_of r em = [{| em_role := r; em_key := key r s; em_iv := iv r (incr (ctr r s)); em_plain := p |}]
+                /\ ctr r s' = incr (ctr r s))).
+Proof.
+  intros [Hkr [Hkd H]]. cbv zeta. destruct r; cbn [key ctr s_dev s_rdr].
+  - split; [reflexivity|]. left. split; [|reflexivity].
+    destruct H as [[-> _]|[p [-> _]]]; reflexivity.
+  - split; [exact Hkd|]. destruct H as [[-> Hs]|[p [-> Hs]]].
+    + left. split; [reflexivity|exact Hs].
+    + right. exists p. split; [reflexivity|exact Hs].
+Qed.
+
 (* one step: at most one emission; it uses the next counter value of its role *)
 Lemma step_emission s o s' x em :
   step s o = (s', x, em) ->
@@ -45,34 +84,46 @@ Lemma step_emission s o s' x em :
      (exists p, ems_of r em = [{| em_role := r; em_key := key r s; em_iv := iv r (incr (ctr r s)); em_plain := p |}]
                 /\ ctr r s' = incr (ctr r s))).
 Proof.
+  assert (Hnone : forall r, key r s = key r s /\
+    ((ems_of r [] = [] /\ ctr r s = ctr r s) \/
+     (exists p, ems_of r [] = [{| em_role := r; em_key := key r s; em_iv := iv r (incr (ctr r s)); em_plain := p |}]
+                /\ ctr r s = incr (ctr r s)))).
+  { intro r. split; [reflexivity|]. left. split; reflexivity. }
   destruct o; cbn [step]; intro H.
   - (* new request *)
     unfold rdr_new_request, next_iv in H. inversion H; subst; clear H.
     intros [|]; cbn; (split; [reflexivity|]); [right; eexists; split; reflexivity|left; split; reflexivity].
   - (* handle request *)
-    destruct (dev_handle_request (s_dev s) w) as [d' ro] eqn:E. inversion H; subst; clear H.
+    destruct (dev_handle_request (s_dev s) w) as [[d' ro] em'] eqn:E. inversion H; subst; clear H.
+    intro r. apply dev_only_step. unfold dev_only_emission.
     unfold dev_handle_request, next_iv in E.
-    assert (Hk : d_kd d' = d_kd (s_dev s) /\ d_send d' = d_send (s_dev s)).
-    { destruct w as [| |c]; try (inversion E; subst; split; reflexivity).
-      destruct (decrypt _ _ c) as [[]|]; inversion E; subst; split; reflexivity. }
-    destruct Hk as [Hk1 Hk2].
-    intros [|]; cbn; (split; [try reflexivity; exact Hk1|]); left; split; try reflexivity. exact Hk2.
-  - inversion H; subst; clear H. intros [|]; cbn; (split; [reflexivity|]); left; split; reflexivity.
-  - inversion H; subst; clear H. intros [|]; cbn; (split; [reflexivity|]); left; split; reflexivity.
+    destruct w as [| |c]; try (inversion E; subst; repeat split; try reflexivity; left; split; reflexivity).
+    destruct (decrypt _ _ c) as [pl|].
+    + destruct pl;
+        try (inversion E; subst; cbn; repeat split; try reflexivity; left; split; reflexivity);
+        match type of E with context [dev_finalize ?x] => destruct (dev_finalize x) as [d'' em''] eqn:Ef end;
+        inversion E; subst; apply dev_finalize_spec in Ef; cbn in Ef;
+        destruct Ef as [H1 [H2 [_ H4]]]; repeat split; assumption.
+    + inversion E; subst; cbn; repeat split; try reflexivity; left; split; reflexivity.
+  - (* prepare *)
+    destruct (dev_prepare (s_dev s) docs errs) as [d' em'] eqn:E. inversion H; subst; clear H.
+    intro r. apply dev_only_step. unfold dev_only_emission.
+    unfold dev_prepare in E. apply dev_finalize_spec in E. cbn in E.
+    destruct E as [H1 [H2 [_ H4]]]. repeat split; assumption.
+  - inversion H; subst; clear H. exact Hnone.
   - (* submit *)
     destruct (dev_submit (s_dev s) sg) as [d' em'] eqn:E. inversion H; subst; clear H.
+    intro r. apply dev_only_step. unfold dev_only_emission.
     unfold dev_submit in E. destruct (d_state (s_dev s)) as [|p|m] eqn:Est.
-    + inversion E; subst. intros [|]; cbn; (split; [reflexivity|]); left; split; reflexivity.
-    + match type of E with context [match pr_prepared ?q with _ => _ end] => destruct (pr_prepared q) eqn:Eq end.
-      * unfold next_iv in E. inversion E; subst; clear E.
-        intros [|]; cbn; (split; [reflexivity|]); [left; split; reflexivity|right; eexists; split; reflexivity].
-      * inversion E; subst. intros [|]; cbn; (split; [reflexivity|]); left; split; reflexivity.
-    + inversion E; subst. intros [|]; cbn; (split; [reflexivity|]); left; split; reflexivity.
-  - inversion H; subst; clear H. intros [|]; cbn; (split; [reflexivity|]); left; split; reflexivity.
+    + inversion E; subst. repeat split; try reflexivity. left; split; reflexivity.
+    + apply dev_finalize_spec in E. cbn in E. destruct E as [H1 [H2 [_ H4]]]. repeat split; assumption.
+    + inversion E; subst. repeat split; try reflexivity. left; split; reflexivity.
+  - inversion H; subst; clear H. exact Hnone.
   - (* retrieve *)
     destruct (dev_retrieve (s_dev s)) as [d' w] eqn:E. inversion H; subst; clear H.
-    unfold dev_retrieve in E. destruct (d_state (s_dev s)); inversion E; subst;
-      intros [|]; cbn; (split; [reflexivity|]); left; split; reflexivity.
+    intro r. apply dev_only_step. unfold dev_only_emission.
+    unfold dev_retrieve in E. destruct (d_state (s_dev s)); inversion E; subst; cbn;
+      repeat split; try reflexivity; left; split; reflexivity.
   - (* handle response *)
     destruct (rdr_handle_response (s_rdr s) w) as [r' ro] eqn:E. inversion H; subst; clear H.
     unfold rdr_handle_response, next_iv in E.
@@ -81,8 +132,8 @@ Proof.
       destruct (decrypt _ _ c) as [[]|]; inversion E; subst; split; reflexivity. }
     destruct Hk as [Hk1 Hk2].
     intros [|]; cbn; (split; [try reflexivity; exact Hk1|]); left; split; try reflexivity. exact Hk2.
-  - inversion H; subst; clear H. intros [|]; cbn; (split; [reflexivity|]); left; split; reflexivity.
-  - inversion H; subst; clear H. intros [|]; cbn; (split; [reflexivity|]); left; split; reflexivity.
+  - inversion H; subst; clear H. exact Hnone.
+  - inversion H; subst; clear H. exact Hnone.
 Qed.
 
 (* all emissions of one role in a run: keys constant, IV counters consecutive from ctr + 1 *)
